@@ -46,6 +46,10 @@ def fingerprint(i, base=0.11, step=0.0371):
 def operator_def(draw, cfg, prev_outputs=(), idx=0, leak=False, funcs=None, collision=False, prev_inputs=()):
     """One operator definition.  prev_outputs: output variable names of earlier operators of the node (wiring)."""
     pool = NAME_POOL if collision else PLAIN_NAMES
+    if cfg.get("extra_names"):
+        # names that the caller wants to see often (e.g. names of temporaries that sympy hands out): half of the pool
+        extra = [n for n in cfg["extra_names"] if _legal(n)]
+        pool = list(pool) + extra * max(1, len(pool) // max(1, len(extra)))
     n_state = draw(st.integers(1, cfg.get("max_state", 2)))
     n_alg = draw(st.integers(0, cfg.get("max_alg", 2)))
     n_in = draw(st.integers(0, cfg.get("max_in", 3)))
